@@ -22,6 +22,11 @@ func (w *zzCountWriter) Write(p []byte) (int, error) {
 
 func HarnessBackup() {
 	c := zzConfig()
+	if c.initMmap < 256<<10 {
+		// the reader is held by the goroutine that also commits: a remap would wait for it forever
+		// (documented for bbolt), so the map is made large enough for the whole history
+		c.initMmap = 256 << 10
+	}
 	path := zz.TempPath("backup.db")
 	db := zzMustOpen(path, c, "backup")
 	zzSetup(db, zz.Param("setup", 1))
